@@ -13,6 +13,7 @@ RULE = ('workchains whose step registers n<=3 (thorough 4) awaitables (plain fut
         'optionally a later step re-assigning a key) x every completion order x placements over loop-callback slots (incl. before registration) x '
         'outcome mixes value/exception/cancel (futures), finish/fail/kill (children); distinct by (program, plan); non-trivial when the barrier '
         'assertion was evaluated or a failure was delivered')
+RULE += ('; also: completions while paused, registering steps inside if/elif/else/while bodies, one item under two keys, mapping results on re-assigned keys, a registering step that runs another process to completion (nested execute, re-entrant loop policy)')
 ASSUMPTIONS = ['pause/play: the workchain paused while the items complete, then played (finer interleavings are C06)', 'children are processes that wait for the harness (so completion is controlled)']
 REQUIRED = ['barrier_checks', 'ctx_checks', 'failures/exc', 'failures/killed', 'failures/cancel', 'kinds/fut', 'kinds/child', 'kinds/oldchild', 'how/ret', 'how/call', 'terminated_before_registration', 'failure_while_paused', 'nested_runs', 'nested_barrier_checks', 'nested_registered_before_inner_run']
 BOUNDS = {'quick': 'n<=3 awaitables, all completion orders, placements sampled on a grid', 'thorough': 'n<=4, all placements'}
